@@ -53,6 +53,23 @@ def rule_ctx(chk):
     if copies and isinstance(copies[0][0].ast, ast.Assign) and isinstance(copies[0][0].ast.targets[0], ast.Name):
         cvar = copies[0][0].ast.targets[0].id
     ok = not outer and not nested_copies and len(copies) == 1 and rng == (1, 1) and copies[0][0] not in in_loop and cvar and len(stores_to_name(w, cvar)) == 1
+    # every variable the wrapper and its nested resumer share is the wrapper's own local (per generator instance)
+    hoisted = []
+    for g in [w] + [x for x in w.nested.values() if not x.is_lambda]:
+        for n in iter_own_nodes(g.node):
+            if isinstance(n, ast.Nonlocal) and g is w:
+                hoisted += n.names
+            if isinstance(n, ast.Global):
+                hoisted += n.names
+    for g in [x for x in w.nested.values() if not x.is_lambda]:
+        for n in iter_own_nodes(g.node):
+            if isinstance(n, ast.Name) and isinstance(n.ctx, ast.Load):
+                r = ctx.p.resolve_name(g.module, g, n.id)
+                if r[0] == "local" and r[1] is dec and n.id not in dec.params and n.id != w.name:
+                    hoisted.append(n.id)
+    chk.req(not hoisted, "C15.ctx", "wrapper:resumption-state-is-per-generator", chk.where(w),
+            good="the pending value / mode / context are locals of the wrapper invocation",
+            fail="%s live outside the wrapper invocation (decorator or module scope): interleaved generators of the same function overwrite each other's pending value or context" % sorted(set(hoisted)))
     chk.req(ok, "C15.ctx", "wrapper:one-private-context-per-generator", chk.where(w),
             good="%s = copy_context() once per wrapper call, before the loop" % cvar,
             fail="the generator's context is not copied exactly once per generator instance inside the wrapper and outside the resumption loop "
